@@ -152,6 +152,11 @@ type Scenario struct {
 	Sched    []int          `json:"sched,omitempty"`
 	Expect   *Expect        `json:"expect,omitempty"`
 	Detail   string         `json:"detail,omitempty"`
+	// Prelude: scenarios executed before this one in the same process, verdicts ignored. A violation
+	// that needs process-lifetime state built up by earlier scenarios of the same worker (a
+	// package-level cache, a lazily filled table, a shared "empty" value somebody wrote to) is
+	// reported with the scenarios that built that state; the replay file is then a process history.
+	Prelude []*Scenario `json:"prelude,omitempty"`
 }
 
 func (s *Scenario) cfg(k string) int {
